@@ -26,6 +26,8 @@ open Rosu.Decode
 
 abbrev Str := List Char
 
+deriving instance DecidableEq for Except
+
 /-! ## strings -/
 
 /-- `char::is_whitespace` (Unicode `White_Space`). -/
